@@ -91,6 +91,24 @@ def run(pid, tier, seed, replay):
         drv = C.Driver()
     try:
         mod.run(chk, drv)
+    except (C.Timeout, KeyboardInterrupt):
+        raise
+    except Exception as e:
+        # The harness itself fell over.  If the exception was RAISED INSIDE the implementation under test
+        # (or inside code the plugin generated from it), the harness met a behaviour it has never seen on the
+        # unchanged tree (every check runs clean there): the correspondence between model and implementation no
+        # longer checks on that input.  That is treated like any other broken correspondence — search for a
+        # concrete failing input, report `no-failing-input-found` otherwise — not as an infrastructure error,
+        # which would let a changed implementation escape just by crashing the check.
+        tb = traceback.extract_tb(e.__traceback__)
+        src = os.path.join(os.environ.get("VERIF_REPO", "/repo"), "src", "betterproto")
+        inside = [fr for fr in tb if fr.filename.startswith(src) or "/bpgen_" in fr.filename or "/genroot_" in fr.filename]
+        if not any(fr in inside for fr in tb[-6:]):
+            raise
+        detail = "".join(traceback.format_exception(type(e), e, e.__traceback__))[-3000:]
+        chk.disagree("harness-stopped-by-implementation-exception", "%s raised at %s:%d" % (type(e).__name__, inside[-1].filename, inside[-1].lineno),
+                     "no exception on the unchanged tree", detail)
+        chk.notes.append("the run was cut short by an exception raised inside the implementation: " + repr(e)[:300])
     finally:
         if drv:
             drv.close()
